@@ -2,6 +2,7 @@ package main
 
 import (
 	"fmt"
+	txfile "github.com/elastic/go-txfile"
 	"math/rand"
 	"os"
 	"strings"
@@ -133,6 +134,35 @@ func init() {
 			rep.count("scenario:meta-area-takes-the-last-pages-then-overflow", 1)
 			runOracleHistory(rep, cfg, ops, hseed, "", nil, nil)
 		}
+		// directed family C: a full bounded file whose overwrite / mapping / free-list pages live past the size limit
+		// (overflow area); the limit is raised or removed on open (FlagUpdMaxSize with a bigger size, with 0, with the
+		// unbound flag); then pages are allocated from the end of the file: none of them may be a page the file uses
+		// internally (seeded change C04n: the data end marker is not moved behind the overflow area when the limit is
+		// removed by a maximum size of 0)
+		for i := 0; i < 12; i++ {
+			hseed := r.Int63()
+			hr := rand.New(rand.NewSource(hseed))
+			cfg := engine.Config{PageSize: 1024, MaxSize: uint64(64+hr.Intn(32)) * 1024, InitMetaArea: uint32(hr.Intn(2) * 2)}
+			ops := fillAllOps(hr)
+			ops = append(ops, engine.Op{Kind: "begin", Overflow: true, WALLimit: 1000})
+			for k := 2 + hr.Intn(8); k > 0; k-- {
+				ops = append(ops, engine.Op{Kind: "setfull", P: hr.Intn(1 << 16), Seed: 1 + hr.Intn(1000)})
+			}
+			if i%2 == 0 {
+				ops = append(ops, engine.Op{Kind: "free", P: hr.Intn(1 << 16)})
+			}
+			ops = append(ops, engine.Op{Kind: "commit"})
+			re := engine.Op{Kind: "reopen", Flags: uint64(txfile.FlagUpdMaxSize), MaxSize: []uint64{0, 0, 256 * 1024}[i%3]}
+			if i%3 == 1 {
+				re.Flags |= uint64(txfile.FlagUnboundMaxSize)
+			}
+			ops = append(ops, re, engine.Op{Kind: "verify"},
+				engine.Op{Kind: "begin"}, engine.Op{Kind: "alloc", N: 4 + hr.Intn(6)}, engine.Op{Kind: "setfull", P: 1 << 15, Seed: 5}, engine.Op{Kind: "commit"}, engine.Op{Kind: "verify"},
+				engine.Op{Kind: "begin"}, engine.Op{Kind: "alloc", N: 3}, engine.Op{Kind: "setfull", P: 1<<15 + 1, Seed: 6}, engine.Op{Kind: "commit"}, engine.Op{Kind: "verify"},
+				engine.Op{Kind: "reopen"}, engine.Op{Kind: "verify"})
+			rep.count("scenario:limit-raised-or-removed-on-a-file-with-an-overflow-area", 1)
+			runOracleHistory(rep, cfg, ops, hseed, "", nil, nil)
+		}
 		// part F: commits that FAIL (injected write / sync / truncate / mmap failures), then further transactions: the
 		// allocator of the process must still be the one of the last committed state - no page of the committed state may
 		// be handed out, the free lists must still partition the file (seeded change C04k: the allocator adopts the new
@@ -146,8 +176,23 @@ func init() {
 			hr := rand.New(rand.NewSource(hseed))
 			cfg := gen.PickConfig(hr)
 			ops, kinds := faultHistory(hr)
+			// (only what the PROCESS does before the file is opened again: what a reopen finds after a commit whose final
+			// sync failed is the known finding F2 of C08)
+			firstReopen := func(o []engine.Op) int {
+				for k, op := range o {
+					if op.Kind == "reopen" || op.Kind == "reopen-under-faults" {
+						return k
+					}
+				}
+				return 1 << 30
+			}
+			var curOps []engine.Op
 			owner := func(fs []string) string {
 				for _, m := range fs {
+					var at int
+					if _, err := fmt.Sscanf(m, "op#%d:", &at); err == nil && at >= firstReopen(curOps) {
+						continue
+					}
 					sg := failSig(m)
 					if strings.HasPrefix(sg, "allocator-partition") || strings.HasPrefix(sg, "free-list-accounting") ||
 						strings.HasPrefix(sg, "meta-area-accounting") || strings.HasPrefix(sg, "allocated-page") || strings.Contains(m, "allocated page") {
@@ -156,6 +201,7 @@ func init() {
 				}
 				return ""
 			}
+			curOps = ops
 			e, hang := c08Run(cfg, ops, false)
 			rep.Evaluations++
 			rep.count("scenario:failing-commits-then-allocations", 1)
@@ -182,6 +228,7 @@ func init() {
 					if nofaults(c) != nofaults(ops) {
 						return false
 					}
+					curOps = c
 					e2, h2 := c08Run(cfg, c, false)
 					return h2 == "" && e2 != nil && owner(e2.Failures) != "" && "fault/"+failSig(owner(e2.Failures)) == sig
 				})
